@@ -53,6 +53,8 @@ Proof. reflexivity. Qed.
 (** whichever of the two waiters reaps the killed leader, the evaluation over its limit (or
     aborted) is rejected -- it never turns into a failure of the run *)
 Example reap_shape : reap_tolerates_echild = true.  Proof. reflexivity. Qed.
+(** the timeout and abort arms kill with SIGKILL (a SIGTERM can be ignored): [LTimer]/[LAbort] empty the group at once *)
+Example reap_signal : reap_kills_with_sigkill = true.  Proof. reflexivity. Qed.
 Theorem killed_evaluation_is_rejected_whoever_reaps :
   forall r, reap_outcome reap_tolerates_echild r = ARejected.
 Proof. intros []; reflexivity. Qed.
